@@ -37,7 +37,7 @@ def coerce(c, dt):
     c = norm_cell(c)
     k = dt.kind
     if k == 'f':
-        if isinstance(c, SFloat):
+        if isinstance(c, SFloat) or type(c).__name__ == 'SFP':
             return c
         if isinstance(c, (SInt, SBool)):
             return SFloat.mk(0, as_sfloat(c).v)
